@@ -1,4 +1,5 @@
 import GLua.Engines.TableEng
+import GLua.Engines.SemEng
 open GLua GLua.Eng
 
 structure DState where
@@ -9,6 +10,7 @@ def stepLine (s : DState) (line : String) : DState × String :=
   | [] => (s, "ok")
   | "reset" :: _ => ({}, "ok")
   | "T" :: r => let (t, v) := TableEng.handle s.tbl r; ({ s with tbl := t }, v.show)
+  | "S" :: r => (s, SemEng.handle r)
   | _ => (s, "MODEL bad-engine")
 
 partial def loop (h : IO.FS.Stream) (out : IO.FS.Stream) (s : DState) : IO Unit := do
